@@ -26,7 +26,8 @@
        start a command, '}' with no block open, anything but the name of a test after `if` (an action as a
        test, an unknown name, a string), an argument list the specification refuses (wrong type, wrong order,
        unknown tag, surplus argument, bad value of a tag's parameter: legal = LReject) at a token of one of
-       the arguments, '{' after a command that takes no block, a command name where ';' is missing;
+       the arguments, '{' after a command that takes no block, a command name where ';' is missing; `elsif` / `else` after a
+       command they may not follow (at the closing brace);
    The converse (soundness of acceptance with respect to the RFC 5228 generic grammar) is NOT proved in
    general: the rejection classes above and the structural theorem C01_accept_final_state are, and the executable oracle
    harness/sieve_spec.py (generic grammar + frozen signatures) is compared with the implementation on the
@@ -374,7 +375,38 @@ Theorem C01_after_flat_name_rejected :
 Proof. exact RejectFacts.after_flat_name_rejected. Qed.
 Print Assumptions C01_after_flat_name_rejected.
 
-(* non-vacuity on the generated tables (one of eleven examples in sieve/RejectExamples.v: prefix `require ["fileinto"]; if size :over 100K {`) *)
+(* `elsif <test> { .. }` / `else { .. }` whose previous command is not one they may follow (or that start a block): rejected at the closing brace *)
+Theorem C01_misplaced_follower_rejected :
+  forall T : tables,
+  twf_tables T = true ->
+  forall (text : bytes) (pre : list token) (tn : token) (otoks btoks : list token) 
+    (t : token) (rest : list token) (L : list bytes) (prev : option bytes) 
+    (k : nat) (d : cmddef) (body : list gcmd) (ns : list node) (L' : list bytes),
+  wf_prefix T (map strip_pos pre) L prev k ->
+  fst (lex text) = pre ++ tn :: otoks ++ btoks ++ t :: rest ->
+  t_kind tn = TIdentifier ->
+  get_command_instance T L (t_val tn) = inl d ->
+  d_type d = CControl ->
+  d_accept_children d = true ->
+  follows_name d prev = false ->
+  (exists (a : argdef) (tst : gtest) (nt : node),
+     d_args d = [a] /\
+     is_t1 a = true /\ wf_test T L tst nt /\ map strip_pos otoks = toks_test tst ++ [tk_lcb]) \/
+  d_args d = [] /\ map strip_pos otoks = [tk_lcb] ->
+  wf_cmds T L None body ns L' ->
+  map strip_pos btoks = flat_map toks_cmd body ->
+  t_kind t = TRightCBracket ->
+  parse T text = Reject EMustFollow (t_pos t) (Datatypes.length (t_val t)).
+Proof. exact RejectFacts.misplaced_follower_rejected. Qed.
+Print Assumptions C01_misplaced_follower_rejected.
+
+(* non-vacuity: `stop; else { stop; } keep;` rejected with 'must follow' at the closing brace, from the theorem *)
+Theorem C01_misplaced_else_example :
+  parse gen_tables (bs "stop; else { stop; } keep;") = Reject EMustFollow 19 1.
+Proof. exact RejectExamples.ex_misplaced_else. Qed.
+Print Assumptions C01_misplaced_else_example.
+
+(* non-vacuity on the generated tables (one of twelve examples in sieve/RejectExamples.v: prefix `require ["fileinto"]; if size :over 100K {`) *)
 Theorem C01_reject_examples :
   let text := bs (px_text ++ "foo ""x""; }") in
   parse gen_tables text = Reject (EUnknownCommand (bs "foo")) 46 3 /\
